@@ -45,6 +45,11 @@ func Geometry(box orb.Bound, g orb.Geometry, o orb.Orientation) orb.Geometry {
 			return result[0]
 		}
 
+		if result == nil {
+			// nothing left, a nil interface like every other empty result
+			return nil
+		}
+
 		return result
 	default:
 		panic(fmt.Sprintf("geometry type not supported: %T", g))
